@@ -25,6 +25,8 @@ def run(ctx):
     ctx.guarded('R10a', CONS, lambda: r10a(ctx))
     ctx.guarded('R10b', 'writers', lambda: r10b(ctx))
     ctx.guarded('R10c', 'set_operation', lambda: r10c(ctx))
+    ctx.rule('R10d', 'set_operation: the output position recorded in the footer advances by exactly the bytes written — each write\'s returned count is added, or a loop of uncounted writes is matched by one `+= trips * record size` that runs exactly when the loop runs')
+    ctx.guarded('R10d', 'set_operation', lambda: r10d(ctx))
 
 
 def r10a(ctx):
@@ -343,3 +345,20 @@ def counts_records_of(e, H):
     if e[0] == 'call' and sg(e[1]).endswith('num_info_entry_following') and e[2] and e[2][0] == H:
         return True
     return False
+
+
+def r10d(ctx):
+    """C10c: `out_offset += size_of::<FileVerificationEntry>()` once for a loop that writes one entry per segment."""
+    from . import posacct
+    posacct.learn_sizes(ctx.F)
+    a = an(ctx.F.body('mdb_shard::set_operations::set_operation'))
+    fn = a.path
+    r = posacct.Acct(a, lambda z: z[0] == 'param' and z[2] == 'out', 'out_offset').run()
+    ctx.floor('R10d', 'writes whose returned count is added to the position', r.stats['direct'], 8)
+    ctx.floor('R10d', 'uncounted writes in loops matched by a bulk position update', r.stats['bulk'], 6)
+    ctx.floor('R10d', 'position updates', r.stats['adds'], 12)
+    ctx.check(not r.viol, 'R10d', fn, 'position', a.loc(r.viol[0][0], r.viol[0][1]) if r.viol else '-',
+              'all %d writes are accounted for: %d add their returned count, %d are covered by a matching bulk update of their loop, %d (the footer) come after the last use of the position'
+              % (r.stats['direct'] + r.stats['bulk'] + r.stats['final'], r.stats['direct'], r.stats['bulk'], r.stats['final']), r.viol[0][2] if r.viol else None)
+    for v in r.viol[1:]:
+        ctx.check(False, 'R10d', fn, 'position', a.loc(v[0], v[1]), '', v[2])
